@@ -197,7 +197,14 @@ func tryReplay(cfg *runCfg, g *Gen, o *Obligation, dir string) (bool, string) {
 	case "idl":
 		return replayIDL(cfg, g, o, dir)
 	case "varlink":
-		return replayVarlink(cfg, g, o, dir)
+		ok, rep := replayVarlink(cfg, g, o, dir)
+		if ok {
+			return ok, rep
+		}
+		ok2, rep2 := varlinkE2E(cfg, o, dir)
+		return ok2, rep + rep2
+	case "ctxio":
+		return varlinkE2E(cfg, o, dir)
 	}
 	return false, "replay: no replay template for this function; no concrete failing input reproduced on the real code\n"
 }
@@ -261,6 +268,53 @@ func idlSearch(cfg *runCfg, o *Obligation, dir string) (bool, string) {
 	}
 	idlSearchCache.rep = rep.String()
 	return idlSearchCache.ok, idlSearchCache.rep
+}
+
+var e2eCache struct {
+	sync.Mutex
+	done bool
+	out  string
+	err  error
+	file string
+}
+
+// varlinkE2E: property-level fallback for packages varlink and ctxio: a fixed family of end-to-end
+// scenarios through the real service loop and the real client, judged by oracles written from the
+// property statements; only lines for the property under check count.
+func varlinkE2E(cfg *runCfg, o *Obligation, dir string) (bool, string) {
+	e2eCache.Lock()
+	defer e2eCache.Unlock()
+	if !e2eCache.done {
+		e2eCache.done = true
+		tmpl, err := os.ReadFile(filepath.Join(cfg.verif, "replay_templates", "varlink_e2e_test.go.tmpl"))
+		if err != nil {
+			e2eCache.err = err
+		} else {
+			src := strings.NewReplacer("@@OBLIGATION@@", o.Name).Replace(string(tmpl))
+			e2eCache.file = filepath.Join(dir, "varlink_e2e_"+cfg.prop+"_test.go")
+			os.WriteFile(e2eCache.file, []byte(src), 0o644)
+			e2eCache.out, e2eCache.err = runOverlayTest(cfg, "varlink", e2eCache.file, "TestVerifReplay", false)
+		}
+	}
+	var rep strings.Builder
+	fmt.Fprintf(&rep, "property-level scenarios (not derived from this obligation's model): real service loop and real client over a unix socket, oracles from the statements of C01-C04, C10-C13\nscenario test: %s\n", e2eCache.file)
+	confirmed := false
+	for _, l := range strings.Split(e2eCache.out, "\n") {
+		if strings.HasPrefix(l, "REPLAY-FAIL prop="+cfg.prop+" ") {
+			confirmed = true
+			rep.WriteString(l + "\n")
+		}
+		if strings.HasPrefix(l, "REPLAY-DONE") {
+			rep.WriteString(l + "\n")
+		}
+	}
+	if !confirmed {
+		if e2eCache.err != nil && !strings.Contains(e2eCache.out, "REPLAY-DONE") {
+			fmt.Fprintf(&rep, "scenario run: %v\n%s\n", e2eCache.err, firstLines(e2eCache.out, 20))
+		}
+		rep.WriteString("scenarios: no run contradicting " + cfg.prop + " found\n")
+	}
+	return confirmed, rep.String()
 }
 
 func replayIDLModel(cfg *runCfg, g *Gen, o *Obligation, dir string) (bool, string) {
